@@ -675,6 +675,44 @@ fn fast_connect(sc: &mut Sc, cl: &Cl) -> bool {
     true
 }
 
+/// handshake whose connect keep-alive is delayed: the client repeats its response a send period later; the repeat
+/// reaches the server (connected, nothing else received from that client yet), whatever the server answers is
+/// delivered, then the delayed keep-alive
+fn late_keepalive_connect(sc: &mut Sc, cl: &Cl) -> bool {
+    let (_, e) = sc.opd(&format!("cli-upd {} 0", cl.h));
+    let req = match e {
+        Some(k) => sc.hist[k].bytes.clone(),
+        None => return false,
+    };
+    let (_, e) = sc.opd(&format!("srv-rx 0 {} {}", cl.addr, hex(&req)));
+    let chal = match e {
+        Some(k) => sc.hist[k].bytes.clone(),
+        None => return false,
+    };
+    sc.op(&format!("cli-rx {} {}", cl.h, hex(&chal)));
+    let (_, e) = sc.opd(&format!("cli-upd {} 0", cl.h));
+    let resp = match e {
+        Some(k) => sc.hist[k].bytes.clone(),
+        None => return false,
+    };
+    let (out, e) = sc.opd(&format!("srv-rx 0 {} {}", cl.addr, hex(&resp)));
+    if !out.starts_with("connected ") {
+        return false;
+    }
+    let late = e.map(|k| sc.hist[k].bytes.clone());
+    if let (_, Some(k)) = sc.opd(&format!("cli-upd {} 250000", cl.h)) {
+        let again = sc.hist[k].bytes.clone();
+        if let (_, Some(k)) = sc.opd(&format!("srv-rx 0 {} {}", cl.addr, hex(&again))) {
+            let r = sc.hist[k].bytes.clone();
+            sc.op(&format!("cli-rx {} {}", cl.h, hex(&r)));
+        }
+    }
+    if let Some(ka) = late {
+        sc.op(&format!("cli-rx {} {}", cl.h, hex(&ka)));
+    }
+    true
+}
+
 /// like `fast_connect` for a client that has already sent its first request: the next one is due a send period later
 fn fast_connect_at(sc: &mut Sc, cl: &Cl, _n: u32) -> bool {
     let (_, e) = sc.opd(&format!("cli-upd {} 250000", cl.h));
@@ -959,7 +997,7 @@ fn script_session(rng: &mut Rng, tier: Tier, f: &mut dyn FnMut(&str) -> String) 
     sc.op("note setup-done");
     let mut up: Vec<bool> = vec![];
     for cl in cls.iter() {
-        up.push(fast_connect(&mut sc, cl));
+        up.push(if rng.chance(1, 3) { late_keepalive_connect(&mut sc, cl) } else { fast_connect(&mut sc, cl) });
     }
     if cls.len() < 2 || !up.iter().all(|x| *x) {
         return;
@@ -1159,6 +1197,16 @@ fn script_session(rng: &mut Rng, tier: Tier, f: &mut dyn FnMut(&str) -> String) 
             18 => {
                 sc.op(&format!("srv-q 0 {}", cls[c].tok.spec.id));
                 sc.op(&format!("cli-q {}", cls[c].h));
+                if rng.chance(1, 2) {
+                    // the limit is lowered and raised again while the sessions exist: nobody is affected
+                    let a = rng.pick(&[0usize, 0, 1]);
+                    sc.op(&format!("srv-setmax 0 {}", a));
+                    sc.op(&format!("srv-setmax 0 {}", a + rng.range(1, 2) as usize));
+                    for j in 0..2 {
+                        sc.op(&format!("srv-q 0 {}", cls[j].tok.spec.id));
+                    }
+                    sc.op("srv-dump 0");
+                }
             }
             _ => {
                 // orderly disconnect of one side (rare), the notification is delivered or lost
@@ -1396,9 +1444,10 @@ fn forged_request(rng: &mut Rng, genuine: &[u8], proto: u64, now_s: u64) -> Vec<
 
 fn script_attacker(rng: &mut Rng, _tier: Tier, f: &mut dyn FnMut(&str) -> String) {
     let mut sc = Sc::new(f);
-    let scenario = rng.below(17);
+    let scenario = rng.below(18);
     let max = match scenario {
         3 => 1,
+        17 => 3,
         6 | 9 | 10 => rng.pick(&[1usize, 2]),
         7 => rng.pick(&[1usize, 2, 3]),
         _ => rng.pick(&[2usize, 3]),
@@ -2085,6 +2134,32 @@ fn script_attacker(rng: &mut Rng, _tier: Tier, f: &mut dyn FnMut(&str) -> String
                 sc.op(&format!("srv-q 0 {}", cls[i].tok.spec.id));
             }
         }
+        17 => {
+            // three sessions in slots 0..2; the limit is lowered (nobody leaves) and then raised to a value above the
+            // lowered limit but not above the table's length: every session is still there
+            for i in 0..3usize {
+                if let (_, Some(ch)) = srv_rx(&mut sc, &a[i], &reqs[i]) {
+                    answer_challenge(&mut sc, i as u64, &a[i], &ch, None);
+                }
+            }
+            if rng.chance(1, 3) {
+                sc.op(&format!("srv-disc 0 {}", cls[rng.below(2) as usize].tok.spec.id));
+            }
+            sc.op("srv-dump 0");
+            let low = rng.pick(&[0usize, 1, 1, 2]);
+            let high = rng.range(low as u64 + 1, 3) as usize;
+            for m in [low, high] {
+                sc.op(&format!("srv-setmax 0 {}", m));
+                sc.op("srv-dump 0");
+                for i in 0..3usize {
+                    sc.op(&format!("srv-q 0 {}", cls[i].tok.spec.id));
+                }
+            }
+            for i in 0..3usize {
+                sc.op(&format!("srv-pay 0 {} 6f6b", cls[i].tok.spec.id));
+                sc.op(&format!("srv-updc 0 {}", cls[i].tok.spec.id));
+            }
+        }
         4 => {
             // connected session 0; the attacker (owner of session 1) injects packets sealed with its own
             // keys from the victim's address and replays the victim's handshake
@@ -2686,7 +2761,7 @@ fn script_wire(rng: &mut Rng, tier: Tier, f: &mut dyn FnMut(&str) -> String) {
 // profile 0: nc-regress — one fixed op list per repaired defect (deterministic, run on every check)
 // =============================================================================================
 
-const REGRESS_CASES: usize = 34;
+const REGRESS_CASES: usize = 37;
 
 fn regress_script(case: usize, f: &mut dyn FnMut(&str) -> String) {
     let mut rng = Rng::new(0xD1CE + case as u64);
@@ -2704,6 +2779,7 @@ fn regress_script(case: usize, f: &mut dyn FnMut(&str) -> String) {
     };
     let max = match case {
         7 | 19 | 22 => 1,
+        35 => 4,
         13 => 3,
         _ => 2,
     };
@@ -3684,6 +3760,164 @@ fn regress_script(case: usize, f: &mut dyn FnMut(&str) -> String) {
             sc.op("srv-pay 0 41 6869");
             sc.op("srv-q 0 40");
             sc.op("srv-q 0 41");
+        }
+        // two server objects (and a restarted one) sharing private key and protocol id, each with the challenge key it
+        // drew ITSELF (no setter; quiet trace, datagrams by history index): a response that echoes the challenge of
+        // server 1 is worthless at server 2 / at the restarted server 1, from a spoofed and from the genuine address
+        34 => {
+            // the connection requests do not depend on anything random: they are taken before the trace goes quiet and
+            // handed over as literal bytes
+            let mut req_hex: Vec<String> = vec![];
+            for c in 0..2 {
+                if let (_, Some(k)) = sc.opd(&format!("cli-upd {} 0", c)) {
+                    req_hex.push(hex(&sc.hist[k].bytes));
+                }
+            }
+            if req_hex.len() < 2 {
+                return;
+            }
+            sc.op("nc-quiet 1");
+            let mk = |h: u64| format!("srv-new {} 5000000 4 {} 1 {} - {}", h, proto, hex(&key), hosts);
+            sc.op(&mk(1));
+            sc.op(&mk(2));
+            // history index of the next datagram the world records (the two requests so far)
+            let mut n = 2usize;
+            let mut emits = |sc: &mut Sc, op: &str| -> Option<usize> {
+                let out = sc.op(op);
+                let t = toks(&out);
+                let yes = match t.first().cloned() {
+                    Some("send") | Some("connected") => true,
+                    Some("disconnected") => t.last() != Some(&"none"),
+                    _ => false,
+                };
+                if yes {
+                    n += 1;
+                    Some(n - 1)
+                } else {
+                    None
+                }
+            };
+            let x = [cls[0].addr.clone(), cls[1].addr.clone()];
+            let spoof = a4(10, 9, 7, 7, 4977);
+            let mut resp: Vec<Option<usize>> = vec![None, None];
+            for c in 0..2usize {
+                if let Some(ch) = emits(&mut sc, &format!("srv-rx 1 {} {}", x[c], req_hex[c])) {
+                    sc.op(&format!("cli-rx {} @{}", c, ch));
+                    resp[c] = emits(&mut sc, &format!("cli-upd {} 0", c));
+                }
+            }
+            if let (Some(rs0), Some(rs1)) = (resp[0], resp[1]) {
+                let (rq0, rq1) = (req_hex[0].clone(), req_hex[1].clone());
+                // server 2: the request of client 0 from a SPOOFED address (challenged by server 2: never delivered), then
+                // the response that echoes server 1's challenge
+                emits(&mut sc, &format!("srv-rx 2 {} {}", spoof, rq0));
+                emits(&mut sc, &format!("srv-rx 2 {} @{}", spoof, rs0));
+                sc.op("srv-q 2 40");
+                // server 2: the same with client 1 from its GENUINE address
+                emits(&mut sc, &format!("srv-rx 2 {} {}", x[1], rq1));
+                emits(&mut sc, &format!("srv-rx 2 {} @{}", x[1], rs1));
+                sc.op("srv-q 2 41");
+                sc.op("srv-dump 2");
+                // server 1 itself accepts client 0
+                sc.op("note expect-connected");
+                emits(&mut sc, &format!("srv-rx 1 {} @{}", x[0], rs0));
+                sc.op("srv-q 1 40");
+                // server 1 is restarted (a new object with the same configuration): the old challenge of client 1 is void
+                sc.op(&mk(1));
+                emits(&mut sc, &format!("srv-rx 1 {} {}", x[1], rq1));
+                emits(&mut sc, &format!("srv-rx 1 {} @{}", x[1], rs1));
+                emits(&mut sc, &format!("srv-rx 1 {} {}", spoof, rq0));
+                emits(&mut sc, &format!("srv-rx 1 {} @{}", spoof, rs0));
+                sc.op("srv-q 1 41");
+                sc.op("srv-q 1 40");
+                sc.op("srv-dump 1");
+            }
+            sc.op("nc-quiet 0");
+        }
+        // four sessions in slots 0..3; the limit is lowered to 2 (nobody leaves), then raised to 3: every session is
+        // still there, and the one in the highest slot stays alive over more than its timeout of lossless keep-alives
+        35 => {
+            let mut all: Vec<Cl> = vec![];
+            for j in 0..2u64 {
+                let mut spec = base_spec(rng, 62 + j, proto, key, 5, &hosts);
+                spec.expire = 65;
+                spec.seal_expire = 65;
+                spec.timeout = 2;
+                if let Some(c) = new_client(&mut sc, 5 + j, &a4(10, 9, 5, j as u8, 4950 + j as u16), &spec, 5_000_000) {
+                    all.push(c);
+                }
+            }
+            fast_connect(&mut sc, &cls[0]);
+            fast_connect(&mut sc, &cls[1]);
+            for c in all.iter() {
+                fast_connect(&mut sc, c);
+            }
+            sc.op("srv-dump 0");
+            let ids = [40u64, 41, 62, 63];
+            for m in [2usize, 3] {
+                sc.op(&format!("srv-setmax 0 {}", m));
+                sc.op("srv-dump 0");
+                for id in ids {
+                    sc.op(&format!("srv-q 0 {}", id));
+                }
+            }
+            // the session in the highest slot: lossless keep-alives both ways for 3 s (timeout 2 s)
+            if let Some(c) = all.last() {
+                for _ in 0..12 {
+                    sc.op("srv-upd 0 250000");
+                    if let (_, Some(k)) = sc.opd(&format!("cli-upd {} 250000", c.h)) {
+                        let d = sc.hist[k].bytes.clone();
+                        sc.op(&format!("srv-rx 0 {} {}", c.addr, hex(&d)));
+                    }
+                    if let (_, Some(k)) = sc.opd(&format!("srv-updc 0 {}", c.tok.spec.id)) {
+                        let d = sc.hist[k].bytes.clone();
+                        sc.op(&format!("cli-rx {} {}", c.h, hex(&d)));
+                    }
+                }
+                sc.op("note expect-up:live-session-lost");
+                sc.op(&format!("cli-q {}", c.h));
+                sc.op("note expect-up:live-session-lost");
+                sc.op(&format!("srv-q 0 {}", c.tok.spec.id));
+            }
+            sc.op("srv-dump 0");
+        }
+        // the connect keep-alive is delayed: the client repeats its response, which reaches the server after the
+        // promotion and before anything else from that client; whatever the server answers is delivered, then the late
+        // keep-alive, then the server's FIRST payload: it is surfaced
+        36 => {
+            let c = &cls[0];
+            if let (_, Some(k)) = sc.opd("cli-upd 0 0") {
+                let req = sc.hist[k].bytes.clone();
+                if let (_, Some(k)) = sc.opd(&format!("srv-rx 0 {} {}", c.addr, hex(&req))) {
+                    let chal = sc.hist[k].bytes.clone();
+                    sc.op(&format!("cli-rx 0 {}", hex(&chal)));
+                    if let (_, Some(k)) = sc.opd("cli-upd 0 0") {
+                        let resp = sc.hist[k].bytes.clone();
+                        if let (_, Some(k)) = sc.opd(&format!("srv-rx 0 {} {}", c.addr, hex(&resp))) {
+                            let late_ka = sc.hist[k].bytes.clone();
+                            sc.op("srv-upd 0 250000");
+                            if let (_, Some(k)) = sc.opd("cli-upd 0 250000") {
+                                let resp2 = sc.hist[k].bytes.clone();
+                                if let (_, Some(k)) = sc.opd(&format!("srv-rx 0 {} {}", c.addr, hex(&resp2))) {
+                                    let r = sc.hist[k].bytes.clone();
+                                    sc.op(&format!("cli-rx 0 {}", hex(&r)));
+                                }
+                            }
+                            sc.op(&format!("cli-rx 0 {}", hex(&late_ka)));
+                            sc.op("cli-q 0");
+                            for p in ["6669727374", "7365636f6e64"] {
+                                if let (_, Some(k)) = sc.opd(&format!("srv-pay 0 40 {}", p)) {
+                                    let d = sc.hist[k].bytes.clone();
+                                    sc.op("note expect-payload");
+                                    sc.op(&format!("cli-rx 0 {}", hex(&d)));
+                                }
+                            }
+                            sc.op("srv-dump 0");
+                            sc.op("cli-dump 0");
+                        }
+                    }
+                }
+            }
         }
         // sequence 2^64-1 (the window's EMPTY sentinel) from the owner of a session
         _ => {
@@ -5172,9 +5406,56 @@ fn oracle_connect_justified(ops: &[String], outs: &[String]) -> Option<OracleFai
     let mut servers: HashMap<String, SrvCfg> = HashMap::new();
     // (server, token index, address, server time in s, answered with a datagram)
     let mut uses: Vec<(String, usize, String, u64, bool)> = vec![];
-    walk(ops, outs, &mut |i, t, out, input, _| {
+    // "echoes a challenge THIS server issued": (server object, address, challenge body) of every challenge a server emitted
+    let mut issued: HashSet<(String, String, Vec<u8>)> = HashSet::new();
+    // provenance, for traces whose datagram bytes are hidden (`nc-quiet`, `#<len>` outputs, `@k` references):
+    //   history index -> (emitting op, content hidden?); the server whose challenge a client instance adopted (the first
+    //   one delivered to it); the client that emitted a datagram; the token of a client instance
+    let mut hist_src: Vec<(usize, bool)> = vec![];
+    let mut adopted: HashMap<String, (String, usize)> = HashMap::new();
+    // server handle -> op index of the `srv-new` that created the current object behind it
+    let mut srv_obj: HashMap<String, usize> = HashMap::new();
+    let mut emitted_by: HashMap<usize, String> = HashMap::new();
+    let mut cli_tok: HashMap<String, usize> = HashMap::new();
+    walk(ops, outs, &mut |i, t, out, input, em| {
+        if em.is_some() {
+            if t[0] == "cli-upd" && t.len() == 3 {
+                emitted_by.insert(hist_src.len(), t[1].to_string());
+            }
+            hist_src.push((i, out.rsplit(' ').next().map(|x| x.starts_with('#')).unwrap_or(false)));
+        }
         match t[0] {
+            "cli-new" if t.len() == 4 => {
+                adopted.remove(t[1]);
+                cli_tok.remove(t[1]);
+                if out == "ok" {
+                    if let Some(tok) = p_hex(t[3]).and_then(|b| ConnectToken::read(&mut &b[..]).ok()) {
+                        if let Some(ti) = tokens.iter().position(|k| k.private[..] == tok.private_data[..]) {
+                            cli_tok.insert(t[1].to_string(), ti);
+                        }
+                    }
+                }
+            }
+            "cli-rx" if t.len() == 3 && !adopted.contains_key(t[1]) => {
+                if let Some(j) = t[2].strip_prefix('@').and_then(p_u64) {
+                    if let Some((src, _)) = hist_src.get(j as usize) {
+                        let st = toks(&ops[*src]);
+                        if st.len() == 4 && st[0] == "srv-rx" && outs[*src].starts_with("send ") {
+                            // the object that was behind the handle when it emitted the challenge
+                            let obj = (0..=*src).rev().find(|j| {
+                                let u = toks(&ops[*j]);
+                                u.len() == 9 && u[0] == "srv-new" && u[1] == st[1] && outs[*j] == "ok"
+                            });
+                            adopted.insert(t[1].to_string(), (st[1].to_string(), obj.unwrap_or(0)));
+                        }
+                    }
+                }
+            }
             "srv-new" if t.len() == 9 && out == "ok" => {
+                // a new server OBJECT (also when the handle is re-used: a restart)
+                srv_obj.insert(t[1].to_string(), i);
+                uses.retain(|u| u.0 != t[1]);
+                issued.retain(|x| x.0 != t[1]);
                 servers.insert(
                     t[1].to_string(),
                     SrvCfg {
@@ -5200,6 +5481,11 @@ fn oracle_connect_justified(ops: &[String], outs: &[String]) -> Option<OracleFai
                         let private = &d[54..1078];
                         if let Some(ti) = tokens.iter().position(|k| k.private == private) {
                             uses.push((s.clone(), ti, addr.clone(), cfg.now_us / 1_000_000, out.starts_with("send ")));
+                            if let Some((to, e)) = em {
+                                if let Some((2, _, body)) = try_open(e, cfg.proto, &tokens[ti].s2c) {
+                                    issued.insert((s.clone(), to.clone(), body));
+                                }
+                            }
                         }
                     }
                 }
@@ -5211,6 +5497,45 @@ fn oracle_connect_justified(ops: &[String], outs: &[String]) -> Option<OracleFai
                         return fail(i, "connected-other-address", format!("datagram from {} connected {}", addr, o[2]));
                     }
                     let cfg = servers.get(&s)?;
+                    // ---- content hidden: judge by provenance
+                    let hidden_ref = t[3].strip_prefix('@').and_then(p_u64).and_then(|k| hist_src.get(k as usize).map(|h| (k as usize, h.1)));
+                    if let Some((k, true)) = hidden_ref {
+                        let Some(c) = emitted_by.get(&k) else { return None };
+                        let Some(ti) = cli_tok.get(c) else { return None };
+                        let this_obj = (s.clone(), srv_obj.get(&s).copied().unwrap_or(0));
+                        if adopted.get(c) != Some(&this_obj) {
+                            return fail(
+                                i,
+                                "unjustified-connect:challenge-of-another-server-object",
+                                format!(
+                                    "server {} reported client {} connected from {} on a response of client instance {} that echoes the challenge issued by server object {:?} — this server's own challenge was never delivered to that client",
+                                    s, id, addr, c, adopted.get(c)
+                                ),
+                            );
+                        }
+                        let kt = &tokens[*ti];
+                        let ok = kt.id == id && kt.ud == ud && uses.iter().any(|(us, t2, ua, _, ans)| *us == s && t2 == ti && *ua == addr && *ans);
+                        if !ok {
+                            return fail(i, "unjustified-connect:token-not-valid-for-this-address-or-time", format!("client {} connected from {} (hidden trace): no answered request with its token from that address", id, addr));
+                        }
+                        return None;
+                    }
+                    // ---- the challenge echoed is one this server object issued to this address
+                    if let Some(d) = input {
+                        let body = tokens.iter().find_map(|k| match try_open(d, cfg.proto, &k.c2s) {
+                            Some((3, _, b)) if k.id == id => Some(b),
+                            _ => None,
+                        });
+                        if let Some(b) = body {
+                            if !issued.contains(&(s.clone(), addr.clone(), b)) {
+                                return fail(
+                                    i,
+                                    "unjustified-connect:challenge-not-issued-by-this-server",
+                                    format!("client {} connected from {} on a response that echoes a challenge this server object never issued to that address", id, addr),
+                                );
+                            }
+                        }
+                    }
                     // the handshake that is being completed is the one opened with the token under whose
                     // client-to-server key this response is sealed (keys are per token)
                     let sealed_under = |k: &TokInfo| input.map(|d| matches!(try_open(d, cfg.proto, &k.c2s), Some((3, _, _)))).unwrap_or(false);
